@@ -53,11 +53,19 @@ def find_target(L, t):
     cands = [n for n in idx.funcs.get(t['qname'], []) if Index.has_body(n) and n['id'] not in idx.pattern]
     if t.get('type'):
         cands = [n for n in cands if n['type']['qualType'] == t['type']]
+    if t.get('type_re'):
+        cands = [n for n in cands if re.fullmatch(t['type_re'], n['type']['qualType'])]
     if t.get('targs'):
         want = [cxx2c.strip_const_deep(a) for a in t['targs']]
         cands = [n for n in cands if [cxx2c.strip_const_deep(a) for a in idx._targs(n)] == want]
     # the same definition can be indexed under lexical and semantic names
     uniq = {n['id']: n for n in cands}
+    if len(uniq) > 1 and t.get('same_instantiation_ok'):
+        # clang lists an implicit instantiation once per point of instantiation: identical signature and body
+        sigs = set(n['type']['qualType'] for n in uniq.values())
+        if len(sigs) == 1:
+            first = sorted(uniq.values(), key=lambda n: n['id'])[0]
+            uniq = {first['id']: first}
     if len(uniq) != 1:
         have = [n['type']['qualType'] for n in idx.funcs.get(t['qname'], [])]
         raise InfraError('contract no longer attached: target %s %s matched %d definitions (have: %s)' %
